@@ -2,6 +2,7 @@
 Command interpreter for the line protocol (see `Main.lean`).
 -/
 import P3R.Model.Runner
+import P3R.Model.RunnerShape
 import P3R.Model.Roles
 import P3R.Model.FusionCheck
 import P3R.Model.LowerCheck
@@ -154,6 +155,16 @@ def step (st : St) (line : String) : St × List String :=
           let fin := (optimize l.ops l.privRows.toList).1
           (st, [if lowerCheck st.b l && l.ops.toList.all opWF && dagOk st.b.nodes && fin.toList.all opWF
                 then "lcheck ok" else "lcheck FAIL"])
+      | "shape", [] =>
+        -- the value-free shape run (Model/RunnerShape.lean) from "all public and private rows set":
+        -- decides, by `P3R.C02.run_succeeds_on_every_satisfying_input`, whether the circuit can fail on
+        -- a satisfying input
+        match st.c with
+        | none => (st, ["shape n/a"])
+        | some c =>
+          let t0 : Array Bool := (c.pubRows.toList ++ c.privRows.toList).foldl
+            (fun t i => t.setIfInBounds i true) (Array.replicate c.witnessCount false)
+          (st, [if runShape c t0 then "shape ok" else "shape no"])
       | "fcheck", [] =>
         -- certificate check of the fusion pass on this program (see Model/FusionCheck.lean)
         match lower st.b with
